@@ -26,6 +26,8 @@ def prof2(moves, depth, pairs, **kw):
 
 PROFILES = {
     "join2": prof2("MovesJoin", 2, [[1, 2], [1, 4], [4, 2], [6, 2]]),
+    "joins3": prof2("MovesJoinS", 3, [[1, 2], [6, 2]]),
+    "joins4": prof2("MovesJoinS", 4, [[1, 2]]),
     "join3": prof2("MovesJoin", 3, [[1, 2], [6, 2]]),
     "union2": prof2("MovesUnion", 2, [[1, 3], [1, 4], [3, 1], [4, 4]]),
     "ref3": prof2("MovesRef", 3, [[1, 2], [6, 2]]),
@@ -56,13 +58,16 @@ CHECKS = {
     "C01": dict(
         level="model_checking",
         clauses=CROSS | {"accept", "export-error"},
-        phases=dict(quick=[dict(profile="core2"), dict(profile="agg3"), dict(profile="wins3")],
-                    thorough=[dict(profile="core3"), dict(profile="agg3"), dict(profile="win3"), dict(profile="wins4")]),
+        phases=dict(quick=[dict(profile="core2"), dict(profile="agg3"), dict(profile="wins3"), dict(profile="win2"),
+                           dict(profile="join2"), dict(profile="joins3"), dict(profile="union2")],
+                    thorough=[dict(profile="core3"), dict(profile="agg3"), dict(profile="win3"), dict(profile="wins4"),
+                              dict(profile="join3"), dict(profile="joins4"), dict(profile="union3")]),
     ),
     "C06": dict(
         level="model_checking",
         clauses=GEN_CLAUSES_SPEC | {"errclass"},
-        phases=dict(quick=[dict(profile="join2")], thorough=[dict(profile="join2"), dict(profile="join3")]),
+        phases=dict(quick=[dict(profile="join2"), dict(profile="joins3")],
+                    thorough=[dict(profile="join2"), dict(profile="join3"), dict(profile="joins4")]),
     ),
     "C07": dict(
         level="model_checking",
@@ -72,8 +77,8 @@ CHECKS = {
     "C08": dict(
         level="model_checking",
         clauses=SUBQ | {"rows", "order", "names", "export-error", "accept"}, backends={"sqlite"},
-        phases=dict(quick=[dict(profile="wins3"), dict(profile="agg3")],
-                    thorough=[dict(profile="wins4"), dict(profile="agg3"), dict(profile="win3")]),
+        phases=dict(quick=[dict(profile="wins3"), dict(profile="agg3"), dict(profile="joins3"), dict(profile="union2")],
+                    thorough=[dict(profile="wins4"), dict(profile="agg3"), dict(profile="win3"), dict(profile="joins4"), dict(profile="union3")]),
     ),
     "C02": dict(
         level="model_checking",
